@@ -44,7 +44,7 @@ def run(c):
     progs = json.load(open(r.dir + "/statetprogs.json"))
     cases = [dict(kind="prog", prog=p["prog"], s0=p["s0"]) for p in progs]
     c.extra["tlc_exported_programs"] = len(cases)
-    cases.append(dict(kind="gen", seed=rng.getrandbits(40), count=20000 if c.thorough else 4000, depth=5))
+    cases.append(dict(kind="gen", seed=rng.getrandbits(40), count=200000 if c.thorough else 4000, depth=6 if c.thorough else 5))
     summary, out = c.harness("c17", cases, timeout=3000)
     c.cov["evaluations"] += summary["traces"]
     non, seen = 0, set()
